@@ -101,6 +101,7 @@ OPS = {"add": operator.add, "sub": operator.sub, "mul": operator.mul, "truediv":
 def replay_arith(cases, F, mon):
     ex = 0
     for n, c in enumerate(cases):
+        n = c.get("_n", n)
         L = mk_table(c["lnames"], 2, 10)
         for opname, fn in OPS.items():
             if c["scalar"]:
@@ -149,6 +150,7 @@ CONVT = {("int", "float"): float}
 def replay_tassign(cases, F, mon):
     ex = 0
     for n, c in enumerate(cases):
+        n = c.get("_n", n)
         kinds, nl, addressed, tags = c["kinds"], c["nullable"], c["addressed"], c["tags"]
         w = len(kinds)
         names = ["c%d" % i for i in range(w)]
